@@ -347,3 +347,41 @@ impl<'de, R: Reader<'de>> Parser<R> {
                     }
 //@end
 }
+
+// ---- cloning (found F17): a clone of a lazily kept value is lazily kept with the same text — whatever the state
+// of its cache — so it serializes verbatim like the original. LazyRaw (FastStr + AtomicPtr<Parsed>) is opaque:
+// clone_lazyraw's own contract (same raw text; own copy of the cache) is assumed, the dispatch is what is proved.
+#[verifier::external_body]
+pub struct LazyRaw { _p: core::marker::PhantomData<()> }
+impl LazyRaw {
+    pub uninterp spec fn raw_text(&self) -> Seq<u8>;
+    #[verifier::external_body]
+    pub fn clone_lazyraw(&self) -> (r: LazyRaw) ensures r.raw_text() == self.raw_text(), { unimplemented!() }
+}
+#[verifier::external_body]
+pub struct Parsed { _p: core::marker::PhantomData<()> }
+impl Clone for Parsed {
+    #[verifier::external_body]
+    fn clone(&self) -> (r: Self) { unimplemented!() }
+}
+impl Clone for FastStr {
+    #[verifier::external_body]
+    fn clone(&self) -> (r: Self) ensures r.fbytes() == self.fbytes(), { unimplemented!() }
+}
+//@extract file=src/lazyvalue/owned.rs enum=LazyPacked
+//@subst /#\[derive\(Debug\)\]/ => 
+//@subst /pub\(crate\) enum/ => pub enum
+//@end
+impl LazyPacked {
+    /// the text a lazily kept value will serialize verbatim (None once it is held parsed)
+    pub open spec fn kept_text(&self) -> Option<Seq<u8>> {
+        match self { LazyPacked::Raw(r) => Some(r.raw_text()), LazyPacked::NonEscStrRaw(s) => Some(s.fbytes()), LazyPacked::Parsed(_) => None }
+    }
+}
+impl Clone for LazyPacked {
+//@extract file=src/lazyvalue/owned.rs impl="Clone for LazyPacked" fn=clone
+//@sig
+        ensures res.kept_text() == self.kept_text(),
+            (self is Raw) == (res is Raw), (self is NonEscStrRaw) == (res is NonEscStrRaw),
+//@end
+}
